@@ -11,5 +11,6 @@ CONSTANTS Weights = {1, 49, 50, 51, 100}
  NewCfgs <- McNewCfgs
  Slices = {"sigs", "tamper"}
  Dev = {}
-INVARIANTS EffectOnlyIfAuthorized CanonicalAccepted RepeatNeverHelps ForeignNeverHelps RemovalNeverHelps EncodingIrrelevant TamperFalsifies PayerBinds ThresholdExact
+VIEW View
+PROPERTIES EffectOnlyIfAuthorized CanonicalAccepted RepeatNeverHelps ForeignNeverHelps RemovalNeverHelps EncodingIrrelevant TamperFalsifies PayerBinds ThresholdExact Reconf
 CHECK_DEADLOCK FALSE
